@@ -14,3 +14,17 @@ pub fn done(cases: u64, bound: &str) -> ! {
     println!("BOUNDED-OK cases={cases} bound={bound}");
     std::process::exit(0)
 }
+
+/// Report (once per tag) a concrete instance of a KNOWN, recorded deviation from the property
+/// text without stopping the enumeration.  The runner turns each `FINDING:` line into the
+/// obligation `native.<bin>.<tag>`: it is printed as KNOWN-FINDING when /verif/known_findings.txt
+/// lists it, and is a VIOLATION otherwise.
+pub fn finding(tag: &str, what: &str, input: &dyn Debug) {
+    use std::sync::Mutex;
+    static SEEN: Mutex<Vec<String>> = Mutex::new(Vec::new());
+    let mut seen = SEEN.lock().unwrap();
+    if seen.iter().any(|t| t == tag) { return; }
+    seen.push(tag.to_string());
+    println!("FINDING: [{tag}] {what}");
+    println!("  input: {input:?}");
+}
